@@ -89,7 +89,7 @@ Print Assumptions C03_wire_roundtrip.
    symbol under :capitalize (C03-2), names that read as numbers (C03-3), createTree dropping |bars| (C03-4),
    | and \ between bars (C03-5), keywords that need bars (C03-6), ? in a name (C03-7),
    non-ASCII names (C03-8: the reader takes them as tokens), the symbol named . (C03-9),
-   symbols named nil (C03-10). *)
+   symbols named nil (C03-10), names that begin with @ (C03-11). *)
 Theorem C03_outside_guard_refuted : forallb (fun w => refuted (fst w) (snd w)) refutation_witnesses = true.
 Proof. exact outside_guard_refuted. Qed.
 Print Assumptions C03_outside_guard_refuted.
